@@ -64,6 +64,7 @@ static struct { const char *name; int arity; void (*fp)(void); } gtab[] = {   /*
 #define S3(n) { #n, 3, (void (*)(void)) n }
 static struct { const char *name; int arity; void (*fp)(void); } stab[] = {
   S2(esl_exp_Sample), S2(esl_gumbel_Sample), S3(esl_gev_Sample), S3(esl_wei_Sample),
+  S3(esl_sxp_Sample), S3(esl_gam_Sample), S2(esl_lognormal_Sample),     /* not by inversion: monitored statistically */
   { NULL, 0, NULL }
 };
 
